@@ -846,7 +846,7 @@ def c18(prop, tier, seed):
 
 @check("C04")
 def c04(prop, tier, seed):
-    return core_check(prop, tier, seed, ["mem", "memfd", "life", "pub2", "tick", "stash", "tsk"],
+    return core_check(prop, tier, seed, ["mem", "memfd", "life", "pub2", "tick", "stash", "tsk", "tb"],
                       ["mem", "memfd", "tsk", "kev", "life", "ctx", "perm", "ps2q", "ps2", "pub2", "ps3", "bc2", "batch", "btmo", "stash", "stashb", "become", "fdev", "srca", "srcb", "subos", "tb", "tick"],
                       "C04 = memory and lifetime safety on every explored history: the union of the Core configurations replayed under ASan/UBSan "
                       "with the allocator ledger (nothing outstanding, nothing freed twice, in clean states), plus configurations in which the "
